@@ -5,6 +5,13 @@
                       network): rank of the (reshaped) view, whether its leading axis is the batch, the reduced axes;
 * `globalReductions`— reductions without `dim` (over *all* axes, batch included) inside any nn.Module method of the zoo;
 * `forwardWrites`   — per nn.Module method (except constructors): number of assignments to `self.*`.
+
+Phase 3 (`c18_prims.py`):
+* `primTable`       — function by function, every operation whose meaning depends on which axis is the batch (8 families);
+* `modelFuncs`      — per zoo model, the functions of /repo/direct one evaluation executes (sys.setprofile on the real model);
+* `effectRows`      — every way a forward path could keep state between calls (10 kinds);
+* `normCtors`       — constructions of batch-statistics layers and whether running statistics are tracked;
+* `unresolvedPrims` — call sites whose axis expression the scanner cannot resolve (not judged).
 """
 from __future__ import annotations
 
